@@ -349,7 +349,7 @@ func builtinIntercepts() map[string]intercept {
 		lv := []types.Type{types.Typ[types.Uint8]}
 		o := x.e.newObject(lv, n, "nondet bytes")
 		for i := 0; i < n; i++ {
-			o.Slots[i] = x.nondet(args[0], 8)
+			o.rawSet(i, x.nondet(args[0], 8))
 		}
 		nt := x.e.intTerm(int64(n))
 		return []Value{Slice{P: Pointer{Obj: o}, Len: nt, Cap: nt}}
@@ -456,8 +456,8 @@ func builtinIntercepts() map[string]intercept {
 			}
 		}
 		o := x.e.newObject([]types.Type{types.Typ[types.String], errorType}, 2, "fmt.Errorf")
-		o.Slots[0] = args[0]
-		o.Slots[1] = wrapped
+		o.rawSet(0, args[0])
+		o.rawSet(1, wrapped)
 		return []Value{Iface{T: wrapErrType, V: Pointer{Obj: o}}}
 	}
 	_ = errT
